@@ -6,7 +6,7 @@ import Liquid.ExprParse
   and the accumulator are irrelevant, `lexRun_append` is the unfolding equation
   `lexRun (l ++ rest) = consTok (mkTok r l) (lexRun rest)` whenever the scanner's longest match at
   `l ++ rest` is rule `r` with exactly the bytes `l`.
-* `step s = bestRule (ruleMatches s)` and its dispatch on the first byte (`step_num`, `step_word`, …):
+* `lexStep s = bestRule (ruleMatches s)` and its dispatch on the first byte (`lexStep_num`, `lexStep_word`, …):
   only a handful of the 23 rules can match at a given first byte.
 -/
 
@@ -37,7 +37,7 @@ def consTok (t : Res LexErr (Option ETok)) (rest : List ETok × Option (Res LexE
   | .unmodelled w => ([], some (.unmodelled w))
 
 /-- the scanner's decision at the head of `s`: the winning rule and the length of its match -/
-def step (s : Bytes) : Option (Rule × Nat) := bestRule (ruleMatches s)
+def lexStep (s : Bytes) : Option (Rule × Nat) := bestRule (ruleMatches s)
 
 theorem lexAux_acc : ∀ (n : Nat) (s : Bytes) (acc : List ETok),
     lexAux n s acc = (acc.reverse ++ (lexAux n s []).1, (lexAux n s []).2) := by
@@ -111,12 +111,12 @@ theorem lexRun_nil : lexRun [] = ([], none) := rfl
 
 /-- **unfolding equation**: when the longest match at `l ++ rest` is rule `r` on exactly `l` -/
 theorem lexRun_append (l rest : Bytes) (r : Rule) (hl : l ≠ [])
-    (h : step (l ++ rest) = some (r, l.length)) :
+    (h : lexStep (l ++ rest) = some (r, l.length)) :
     lexRun (l ++ rest) = consTok (mkTok r l) (lexRun rest) := by
   cases l with
   | nil => exact absurd rfl hl
   | cons c t =>
-    unfold step at h
+    unfold lexStep at h
     have hmax : max (t.length + 1) 1 = t.length + 1 := by omega
     unfold lexRun
     simp only [List.cons_append, List.length_cons] at h
@@ -210,7 +210,7 @@ theorem spanLen_cons_true (p : UInt8 → Bool) (c : UInt8) (t : Bytes) (h : p c 
   simp [spanLen, h]
 
 /-- the rule list after unfolding the literal keywords -/
-theorem step_def (s : Bytes) : step s = (ruleMatches s).foldl bestStep none := bestRule_eq_foldl _
+theorem lexStep_def (s : Bytes) : lexStep s = (ruleMatches s).foldl bestStep none := bestRule_eq_foldl _
 
 /-- numbers: a digit or `-` -/
 theorem head_num : ∀ c : UInt8, (isDigit c = true ∨ c = 45) →
@@ -219,11 +219,11 @@ theorem head_num : ∀ c : UInt8, (isDigit c = true ∨ c = 45) →
     (111 == c) = false ∧ (99 == c) = false ∧ (105 == c) = false ∧ (46 == c) = false ∧ isIdStart c = false ∧
     (c == 34 || c == 39) = false ∧ isLexSpace c = false := by decide +kernel
 
-theorem step_num (c : UInt8) (t : Bytes) (h : isDigit c = true ∨ c = 45) :
-    step (c :: t) = ([(.rInt, intLen (c :: t)), (.rFloat, floatLen (c :: t)), (.rAny, some 1)] :
+theorem lexStep_num (c : UInt8) (t : Bytes) (h : isDigit c = true ∨ c = 45) :
+    lexStep (c :: t) = ([(.rInt, intLen (c :: t)), (.rFloat, floatLen (c :: t)), (.rAny, some 1)] :
       List (Rule × Option Nat)).foldl bestStep none := by
   obtain ⟨h1, h2, h3, h4, h5, h6, h7, h8, h9, h10, h11, h12, h13, h14, h15, h16, h17⟩ := head_num c h
-  simp only [step_def, ruleMatches, kwAssign, kwCycle, kwLoop, kwWhen, kwTrue, kwFalse, kwNil, kwAnd, kwOr,
+  simp only [lexStep_def, ruleMatches, kwAssign, kwCycle, kwLoop, kwWhen, kwTrue, kwFalse, kwNil, kwAnd, kwOr,
     kwContains, kwIn, litLen_cons, h1, h2, h3, h4, h5, h6, h7, h8, h9, h10, h11, h12, h13, h14,
     stringLen_cons_other c t h16, identLen_cons_other c t h15, propertyLen_cons_other c t h14,
     spanLen_cons_false _ c t h17, List.foldl_cons, List.foldl_nil, bestStep_none, Bool.false_eq_true, if_false,
@@ -250,10 +250,10 @@ theorem head_quote : ∀ c : UInt8, (c == 34 || c == 39) = true →
     (111 == c) = false ∧ (99 == c) = false ∧ (105 == c) = false ∧ (46 == c) = false ∧ isIdStart c = false ∧
     isDigit c = false ∧ (45 == c) = false ∧ isLexSpace c = false := by decide +kernel
 
-theorem step_quote (c : UInt8) (t : Bytes) (h : (c == 34 || c == 39) = true) :
-    step (c :: t) = ([(.rString, stringLen (c :: t)), (.rAny, some 1)] : List (Rule × Option Nat)).foldl bestStep none := by
+theorem lexStep_quote (c : UInt8) (t : Bytes) (h : (c == 34 || c == 39) = true) :
+    lexStep (c :: t) = ([(.rString, stringLen (c :: t)), (.rAny, some 1)] : List (Rule × Option Nat)).foldl bestStep none := by
   obtain ⟨h1, h2, h3, h4, h5, h6, h7, h8, h9, h10, h11, h12, h13, h14, h15, h16, h17, h18⟩ := head_quote c h
-  simp only [step_def, ruleMatches, kwAssign, kwCycle, kwLoop, kwWhen, kwTrue, kwFalse, kwNil, kwAnd, kwOr,
+  simp only [lexStep_def, ruleMatches, kwAssign, kwCycle, kwLoop, kwWhen, kwTrue, kwFalse, kwNil, kwAnd, kwOr,
     kwContains, kwIn, litLen_cons, h1, h2, h3, h4, h5, h6, h7, h8, h9, h10, h11, h12, h13, h14,
     intLen_cons_other c t h16 h17, floatLen_cons_other c t h16 h17, identLen_cons_other c t h15,
     propertyLen_cons_other c t h14,
@@ -284,25 +284,25 @@ def wordCands (s : Bytes) : List (Rule × Option Nat) :=
     (.rKeyword, keywordLen s),
     (.rIdent, identLen s), (.rAny, some 1) ]
 
-theorem step_word (c : UInt8) (t : Bytes) (h : isIdStart c = true) :
-    step (c :: t) = (wordCands (c :: t)).foldl bestStep none := by
+theorem lexStep_word (c : UInt8) (t : Bytes) (h : isIdStart c = true) :
+    lexStep (c :: t) = (wordCands (c :: t)).foldl bestStep none := by
   obtain ⟨h1, h2, h6, h7, h8, h9, h14, h15, h16, h17, h18⟩ := head_word c h
-  simp only [step_def, ruleMatches, wordCands, kwAssign, kwCycle, kwLoop, kwWhen, litLen_cons, h1, h2, h6, h7, h8, h9, h14,
+  simp only [lexStep_def, ruleMatches, wordCands, kwAssign, kwCycle, kwLoop, kwWhen, litLen_cons, h1, h2, h6, h7, h8, h9, h14,
     intLen_cons_other c t h16 h17, floatLen_cons_other c t h16 h17, stringLen_cons_other c t h15,
     propertyLen_cons_other c t h14,
     spanLen_cons_false _ c t h18, List.foldl_cons, List.foldl_nil, bestStep_none, Bool.false_eq_true, if_false,
     BEq.rfl, if_true]
   rfl
 
-theorem step_dot (t : Bytes) :
-    step (46 :: t) = ([(.rDotdot, litLen [46, 46] (46 :: t)), (.rProperty, propertyLen (46 :: t)), (.rAny, some 1)] :
+theorem lexStep_dot (t : Bytes) :
+    lexStep (46 :: t) = ([(.rDotdot, litLen [46, 46] (46 :: t)), (.rProperty, propertyLen (46 :: t)), (.rAny, some 1)] :
       List (Rule × Option Nat)).foldl bestStep none := by
   have h16 : isDigit 46 = false := by decide
   have h17 : ((45 : UInt8) == 46) = false := by decide
   have h15 : isIdStart 46 = false := by decide
   have h18 : isLexSpace 46 = false := by decide
   have hq : ((46 : UInt8) == 34 || (46 : UInt8) == 39) = false := by decide
-  simp only [step_def, ruleMatches, kwAssign, kwCycle, kwLoop, kwWhen, kwTrue, kwFalse, kwNil, kwAnd, kwOr,
+  simp only [lexStep_def, ruleMatches, kwAssign, kwCycle, kwLoop, kwWhen, kwTrue, kwFalse, kwNil, kwAnd, kwOr,
     kwContains, kwIn, litLen_cons _ _ 46,
     intLen_cons_other 46 t h16 h17, floatLen_cons_other 46 t h16 h17, stringLen_cons_other 46 t hq,
     identLen_cons_other 46 t h15,
@@ -324,11 +324,11 @@ theorem head_op : ∀ c : UInt8, isOpStart c = true →
     (111 == c) = false ∧ (99 == c) = false ∧ (105 == c) = false ∧ (46 == c) = false ∧ isIdStart c = false ∧
     (c == 34 || c == 39) = false ∧ isDigit c = false ∧ (45 == c) = false ∧ isLexSpace c = false := by decide +kernel
 
-theorem step_op (c : UInt8) (t : Bytes) (h : isOpStart c = true) :
-    step (c :: t) = ([(.rEq, litLen [61, 61] (c :: t)), (.rNeq, litLen [33, 61] (c :: t)), (.rGe, litLen [62, 61] (c :: t)),
+theorem lexStep_op (c : UInt8) (t : Bytes) (h : isOpStart c = true) :
+    lexStep (c :: t) = ([(.rEq, litLen [61, 61] (c :: t)), (.rNeq, litLen [33, 61] (c :: t)), (.rGe, litLen [62, 61] (c :: t)),
       (.rLe, litLen [60, 61] (c :: t)), (.rAny, some 1)] : List (Rule × Option Nat)).foldl bestStep none := by
   obtain ⟨h1, h2, h3, h4, h5, h10, h11, h12, h13, h14, h15, hq, h16, h17, h18⟩ := head_op c h
-  simp only [step_def, ruleMatches, kwAssign, kwCycle, kwLoop, kwWhen, kwTrue, kwFalse, kwNil, kwAnd, kwOr,
+  simp only [lexStep_def, ruleMatches, kwAssign, kwCycle, kwLoop, kwWhen, kwTrue, kwFalse, kwNil, kwAnd, kwOr,
     kwContains, kwIn, litLen_cons 37, litLen_cons 123, litLen_cons 116, litLen_cons 102, litLen_cons 110, litLen_cons 97,
     litLen_cons 111, litLen_cons 99, litLen_cons 105, litLen_cons 46,
     h1, h2, h3, h4, h5, h10, h11, h12, h13, h14,
@@ -343,11 +343,11 @@ theorem head_space : ∀ c : UInt8, isLexSpace c = true →
     (111 == c) = false ∧ (99 == c) = false ∧ (105 == c) = false ∧ (46 == c) = false ∧ isIdStart c = false ∧
     (c == 34 || c == 39) = false ∧ isDigit c = false ∧ (45 == c) = false := by decide +kernel
 
-theorem step_space (c : UInt8) (t : Bytes) (h : isLexSpace c = true) :
-    step (c :: t) = some (.rSpace, spanLen isLexSpace t + 1) := by
+theorem lexStep_space (c : UInt8) (t : Bytes) (h : isLexSpace c = true) :
+    lexStep (c :: t) = some (.rSpace, spanLen isLexSpace t + 1) := by
   obtain ⟨h1, h2, h3, h4, h5, h6, h7, h8, h9, h10, h11, h12, h13, h14, h15, hq, h16, h17⟩ := head_space c h
   have hgt : ¬ (1 > spanLen isLexSpace t + 1) := by omega
-  simp only [step_def, ruleMatches, kwAssign, kwCycle, kwLoop, kwWhen, kwTrue, kwFalse, kwNil, kwAnd, kwOr,
+  simp only [lexStep_def, ruleMatches, kwAssign, kwCycle, kwLoop, kwWhen, kwTrue, kwFalse, kwNil, kwAnd, kwOr,
     kwContains, kwIn, litLen_cons, h1, h2, h3, h4, h5, h6, h7, h8, h9, h10, h11, h12, h13, h14,
     intLen_cons_other c t h16 h17, floatLen_cons_other c t h16 h17, stringLen_cons_other c t hq,
     identLen_cons_other c t h15, propertyLen_cons_other c t h14,
@@ -364,9 +364,9 @@ theorem head_plain : ∀ c : UInt8, isPlain c = true →
     (111 == c) = false ∧ (99 == c) = false ∧ (105 == c) = false ∧ (46 == c) = false ∧ isIdStart c = false ∧
     (c == 34 || c == 39) = false ∧ isDigit c = false ∧ (45 == c) = false ∧ isLexSpace c = false := by decide +kernel
 
-theorem step_plain (c : UInt8) (t : Bytes) (h : isPlain c = true) : step (c :: t) = some (.rAny, 1) := by
+theorem lexStep_plain (c : UInt8) (t : Bytes) (h : isPlain c = true) : lexStep (c :: t) = some (.rAny, 1) := by
   obtain ⟨h1, h2, h3, h4, h5, h6, h7, h8, h9, h10, h11, h12, h13, h14, h15, hq, h16, h17, h18⟩ := head_plain c h
-  simp only [step_def, ruleMatches, kwAssign, kwCycle, kwLoop, kwWhen, kwTrue, kwFalse, kwNil, kwAnd, kwOr,
+  simp only [lexStep_def, ruleMatches, kwAssign, kwCycle, kwLoop, kwWhen, kwTrue, kwFalse, kwNil, kwAnd, kwOr,
     kwContains, kwIn, litLen_cons, h1, h2, h3, h4, h5, h6, h7, h8, h9, h10, h11, h12, h13, h14,
     intLen_cons_other c t h16 h17, floatLen_cons_other c t h16 h17, stringLen_cons_other c t hq,
     identLen_cons_other c t h15, propertyLen_cons_other c t h14,
@@ -374,8 +374,8 @@ theorem step_plain (c : UInt8) (t : Bytes) (h : isPlain c = true) : step (c :: t
     BEq.rfl, if_true, bestStep_first]
 
 /-- `%`: the selectors `%assign ` and `%loop ` -/
-theorem step_percent (t : Bytes) :
-    step (37 :: t) = ([(.rAssign, litLen kwAssign (37 :: t)), (.rLoop, litLen kwLoop (37 :: t)), (.rAny, some 1)] :
+theorem lexStep_percent (t : Bytes) :
+    lexStep (37 :: t) = ([(.rAssign, litLen kwAssign (37 :: t)), (.rLoop, litLen kwLoop (37 :: t)), (.rAny, some 1)] :
       List (Rule × Option Nat)).foldl bestStep none := by
   have h16 : isDigit 37 = false := by decide
   have h17 : ((45 : UInt8) == 37) = false := by decide
@@ -383,7 +383,7 @@ theorem step_percent (t : Bytes) :
   have h18 : isLexSpace 37 = false := by decide
   have h14 : ((46 : UInt8) == 37) = false := by decide
   have hq : ((37 : UInt8) == 34 || (37 : UInt8) == 39) = false := by decide
-  simp only [step_def, ruleMatches, kwCycle, kwWhen, kwTrue, kwFalse, kwNil, kwAnd, kwOr,
+  simp only [lexStep_def, ruleMatches, kwCycle, kwWhen, kwTrue, kwFalse, kwNil, kwAnd, kwOr,
     kwContains, kwIn, litLen_cons _ _ 37,
     intLen_cons_other 37 t h16 h17, floatLen_cons_other 37 t h16 h17, stringLen_cons_other 37 t hq,
     identLen_cons_other 37 t h15, propertyLen_cons_other 37 t h14,
@@ -397,8 +397,8 @@ theorem step_percent (t : Bytes) :
     show ((105 : UInt8) == 37) = false by decide, show ((46 : UInt8) == 37) = false by decide]
 
 /-- `{`: the selectors `{%cycle ` and `{%when ` -/
-theorem step_brace (t : Bytes) :
-    step (123 :: t) = ([(.rCycle, litLen kwCycle (123 :: t)), (.rWhen, litLen kwWhen (123 :: t)), (.rAny, some 1)] :
+theorem lexStep_brace (t : Bytes) :
+    lexStep (123 :: t) = ([(.rCycle, litLen kwCycle (123 :: t)), (.rWhen, litLen kwWhen (123 :: t)), (.rAny, some 1)] :
       List (Rule × Option Nat)).foldl bestStep none := by
   have h16 : isDigit 123 = false := by decide
   have h17 : ((45 : UInt8) == 123) = false := by decide
@@ -406,7 +406,7 @@ theorem step_brace (t : Bytes) :
   have h18 : isLexSpace 123 = false := by decide
   have h14 : ((46 : UInt8) == 123) = false := by decide
   have hq : ((123 : UInt8) == 34 || (123 : UInt8) == 39) = false := by decide
-  simp only [step_def, ruleMatches, kwAssign, kwLoop, kwTrue, kwFalse, kwNil, kwAnd, kwOr,
+  simp only [lexStep_def, ruleMatches, kwAssign, kwLoop, kwTrue, kwFalse, kwNil, kwAnd, kwOr,
     kwContains, kwIn, litLen_cons _ _ 123,
     intLen_cons_other 123 t h16 h17, floatLen_cons_other 123 t h16 h17, stringLen_cons_other 123 t hq,
     identLen_cons_other 123 t h15, propertyLen_cons_other 123 t h14,
